@@ -84,6 +84,10 @@ def raise_styled(style, cls, msg):
             raise KeyError("inner of " + msg)
         except KeyError:
             raise cls(msg)
+    if style == "syntax":
+        # a SyntaxError raised at run time (compile / exec / import of a module that does not compile): its
+        # traceback ends in a location line without a function name
+        compile("def broken(:\n", "generated_%s.py" % abs(hash(msg)), "exec")
     if style == "unhashable":
         raise UnhashableError(msg)
     if style == "unhashable-cause":
@@ -207,6 +211,11 @@ def do_part(test, ph, part):
         import tempfile
         os.chdir(tempfile.gettempdir())
     exc = part.get("exc")
+    if exc and part.get("once"):
+        # a test whose outcome depends on state that survives --repeat iterations: it raises only the first
+        # time this phase runs in this process
+        if _attempt("once", (test.spec["id"], str(ph))) > 0:
+            exc = None
     if exc in ("exit0", "exit3", "sigkill", "segv"):
         trace({"ev": "die", "how": exc})
         sys.stdout.flush()
@@ -235,7 +244,8 @@ class Base(unittest.TestCase):
         unittest.TestCase.__init__(self, "runTest")
 
     def __str__(self):
-        return "t%d (%s)" % (self.spec["id"], self.spec.get("module", "wtests"))
+        return "t%d (%s)%s" % (self.spec["id"], self.spec.get("module", "wtests"),
+                               (" " + self.spec["label"]) if self.spec.get("label") else "")
 
     def id(self):
         return "%s.%s.t%d" % (self.__class__.__module__, self.__class__.__name__, self.spec["id"])
